@@ -386,7 +386,7 @@ impl BudgetEnforcer {
             }
             Event::DocumentStart(_explicit) => {
                 if self.policy == EnforcingPolicy::PerDocument {
-                    self.report.reset();
+                    self.begin_document();
                 } else {
                     self.report.documents += 1;
                     if self.report.documents > self.budget.max_documents {
@@ -402,6 +402,18 @@ impl BudgetEnforcer {
         }
 
         Ok(())
+    }
+
+    /// Under the per-document policy, forget everything counted for the previous document
+    /// (usage counters, the set of defined anchors and the container bookkeeping), so that
+    /// the documents already read never affect whether the next one is accepted.
+    pub(crate) fn begin_document(&mut self) {
+        if self.policy == EnforcingPolicy::PerDocument {
+            self.report.reset();
+            self.defined_anchors.clear();
+            self.depth = 0;
+            self.containers.clear();
+        }
     }
 
     fn bump_nodes(&mut self) -> Result<(), BudgetBreach> {
